@@ -116,9 +116,21 @@ class Machine:
         self.config_history = []
         self.flips_since_lower = 0
         self.all_values = None  # set to {} to retain every key's value (C06)
+        self._volatile_names = None
 
     def bump(self, k, n=1):
         self.stats[k] = self.stats.get(k, 0) + n
+
+    def nm(self, name):
+        """Names enter event logs only through here: programs containing an input that is random
+        per instance by design (lock=True -> fresh SerializableLock, untokenizable source ->
+        uuid token) have non-reproducible names, which must not reach a digest."""
+        if self._volatile_names is None:
+            self._volatile_names = any(
+                (s["op"] == "from_array" and (s["args"].get("lock") is True
+                                               or self.recipe["sources"][s["args"]["src"]].get("tokenizable", True) is False))
+                for s in self.recipe["steps"])
+        return "?" if self._volatile_names else name
 
     # ------------------------------------------------------------------ pristine oracle
     def pristine_phase(self, vars_):
@@ -245,7 +257,7 @@ class Machine:
             out["x"] = x
         elif kind == "inspect":
             x = self.pool[var]
-            out["seen"] = [touch(x, a) for a in ev["acc"]]
+            out["seen"] = [self.nm(touch(x, a)) if a == "name" else touch(x, a) for a in ev["acc"]]
         elif kind == "simplify":
             x = self.pool[var]
             y = x.simplify()
